@@ -778,7 +778,14 @@ def _build_table():
         },
         0.0,
     )
-    fill_mut("multiple_universes", "fillMultiple", lambda rng, tw, tgt: B(tgt.fill.multiple_universes), BOOL_INVALID, 0.2)
+    fill_mut(
+        "multiple_universes",
+        "fillMultiple",
+        # never switched on (the cell would need a universes array); sometimes switched off, which uncovers `_universe`
+        lambda rng, tw, tgt: B(rng.random() < 0.6) if tgt.fill.multiple_universes else B(False),
+        BOOL_INVALID,
+        0.3,
+    )
     fill_mut(
         "transform",
         "fillTransform",
@@ -1490,40 +1497,53 @@ def run(chk):
     reps = chk.pick(5, 110)
     cases = [dict(c) for c in corpus_cases()] + gen_cases(chk, reps)
     ncorpus = len(corpus_cases())
-    results = pmap(run_case, cases, chunksize=4)
-
     pairs_hit = {}
     decl_hit = set()
-    records = []
-    for payload, res in zip(cases, results):
-        _account(chk, payload, res)
-        for e in res["events"]:
-            if e.get("inject") and not e.get("accepted"):
-                pairs_hit[(e["m"], e["inject"])] = pairs_hit.get((e["m"], e["inject"]), 0) + 1
-        for rec in res["model_cases"]:
-            records.append((payload, rec))
-            if rec["case"].get("unit") == "gen":
-                decl_hit.add((rec["case"]["cls"], rec["case"]["prop"]))
-        if res["violation"] is not None:
-            # confirm in this process, on the concrete script, before anything is reported
-            confirm = run_case({"source": payload["source"], "script": res["script"]})
-            if confirm["violation"] is None or confirm["violation"]["signature"] != res["violation"]["signature"]:
-                chk.count("flaky:violation-not-reproduced")
-                continue
-            shr = _shrink_violation(payload, res)
-            if shr is None:
-                chk.count("flaky:violation-not-reproduced")
-                continue
-            small, r = shr
-            v = r["violation"]
-            chk.violation(v["signature"], v["what"], {"case": small, "detail": v["detail"], "events": r["events"]})
-    _compare_model(chk, drv, records)
+    nrecords = 0
+    BATCH = 2400  # bounded memory: results carry the abstract worlds of every modelled call
+    for b0 in range(0, len(cases), BATCH):
+        batch = cases[b0 : b0 + BATCH]
+        results = pmap(run_case, batch, chunksize=4)
+        records = []
+        for payload, res in zip(batch, results):
+            _account(chk, payload, res)
+            for e in res["events"]:
+                if e.get("inject") and not e.get("accepted"):
+                    pairs_hit[(e["m"], e["inject"])] = pairs_hit.get((e["m"], e["inject"]), 0) + 1
+            for rec in res["model_cases"]:
+                records.append((payload, rec))
+                if rec["case"].get("unit") == "gen":
+                    decl_hit.add((rec["case"]["cls"], rec["case"]["prop"]))
+            if res["violation"] is not None:
+                # confirm in this process, on the concrete script, before anything is reported
+                confirm = run_case({"source": payload["source"], "script": res["script"]})
+                if confirm["violation"] is None or confirm["violation"]["signature"] != res["violation"]["signature"]:
+                    chk.count("flaky:violation-not-reproduced")
+                    continue
+                sig = res["violation"]["signature"]
+                known = any(all(sig.get(k) == v for k, v in f["signature"].items()) for f in chk.known)
+                seen = any(v["key"] == jcanon(sig) for v in chk.violations)
+                if (known and any(h["count"] >= 3 for h in chk.known_hit.values())) or seen or len(chk.violations) >= 12:
+                    # a signature that already has a minimised replay (or a listed finding that already
+                    # reproduced): count it, do not shrink it again — keeps a failing run inside the time box
+                    chk.violation(sig, res["violation"]["what"], {"case": {"source": payload["source"], "script": res["script"]}})
+                    continue
+                shr = _shrink_violation(payload, res)
+                if shr is None:
+                    chk.count("flaky:violation-not-reproduced")
+                    continue
+                small, r = shr
+                v = r["violation"]
+                chk.violation(v["signature"], v["what"], {"case": small, "detail": v["detail"], "events": r["events"]})
+        _compare_model(chk, drv, records)
+        nrecords += len(records)
+        del results, records
     _confirm_and_report_disagreements(chk, drv)
 
     allp = all_pairs()
     never = [p for p in allp if p not in pairs_hit]
     chk.units["U-setter-gen"] = {"declarations_with_setter_hit": sorted(f"{c}.{p}" for c, p in decl_hit)}
-    chk.units["U-setter-hand"] = {"model_cases": len(records)}
+    chk.units["U-setter-hand"] = {"model_cases": nrecords}
     chk.units["oracle"] = {
         "corpus": ncorpus,
         "generated_cases": len(cases) - ncorpus,
@@ -1533,6 +1553,8 @@ def run(chk):
         "pairs_never_rejected": [f"{m}/{c}" for m, c in never],
     }
     chk.exhaustive = False
+    if chk.thorough:
+        leanio.leanchecker(chk, ["MontePyVerif.Props.C14"])
     # every generated property that has a setter must be exercised (the table is checked against the translator)
     _check_decl_coverage(chk, decl_hit)
 
